@@ -1,7 +1,7 @@
 (* C04 -- property theorems only.  Proofs live in C04/Proofs*.v. *)
 From Coq Require Import NArith Arith List Bool.
 From DV Require Import Base.Outcome Base.Bytes Base.Lex Base.Names Base.PName C04.Gen C04.Model
-  C04.ProofsLabel C04.ProofsIter C04.ProofsRepr C04.ProofsData C04.ProofsParsed C04.ProofsEmbed C04.ProofsOrder C04.ProofsCompressed C04.ProofsTyped C04.ProofsSuffix C04.ProofsOrdTable.
+  C04.ProofsLabel C04.ProofsIter C04.ProofsRepr C04.ProofsData C04.ProofsParsed C04.ProofsEmbed C04.ProofsOrder C04.ProofsCompressed C04.ProofsTyped C04.ProofsSuffix C04.ProofsOrdTable C04.ProofsAccept.
 Import ListNotations.
 Local Open Scope N_scope.
 
@@ -16,6 +16,10 @@ Print Assumptions C04_label_eq_hash_model.
 Theorem C04_label_cmp_eq_model : forall a b, m_label_cmp a b = Eq <-> m_label_eq a b = true.
 Proof. exact label_cmp_eq_model. Qed.
 Print Assumptions C04_label_cmp_eq_model.
+
+Theorem C04_lower_is_std : forall b, b < 256 -> lower b = std_to_ascii_lowercase b.
+Proof. exact lower_is_std. Qed.
+Print Assumptions C04_lower_is_std.
 
 Theorem C04_flat_eq_iff_label_eq : forall a b, valid_abs a -> valid_abs b -> eq_ci (wire_abs a) (wire_abs b) = name_eqb a b.
 Proof. exact flat_eq_iff_label_eq. Qed.
@@ -112,6 +116,14 @@ Print Assumptions C04_parsed_uncompressed_embedding.
 Theorem C04_parsed_uncompressed_same_as_flat : forall pre n post b rb, valid_abs n -> valid_abs b -> denotes rb (b ++ [[]]) -> let m := pre ++ wire_abs n ++ post in exists p, parse_ref m (N.of_nat (length pre)) (mlen m) = Ok p /\ m_name_eq (NParsed m p) rb = Ok (name_eqb n b) /\ m_name_cmp (NParsed m p) rb = Ok (name_cmp n b) /\ m_name_hash (NParsed m p) = Ok (name_hash_feed n).
 Proof. exact parsed_uncompressed_same_as_flat. Qed.
 Print Assumptions C04_parsed_uncompressed_same_as_flat.
+
+Theorem C04_decode_abs_sound : forall w n rest, wf_bytes w -> decode_abs w = inl (Some (n, rest)) -> valid_abs n /\ w = wire_abs n ++ rest.
+Proof. exact decode_abs_sound. Qed.
+Print Assumptions C04_decode_abs_sound.
+
+Theorem C04_accepted_flat_ops : forall wa a wb b, wf_bytes wa -> wf_bytes wb -> decode_abs wa = inl (Some (a, [])) -> decode_abs wb = inl (Some (b, [])) -> m_name_eq (NFlat wa) (NFlat wb) = Ok (name_eqb a b) /\ m_name_cmp (NFlat wa) (NFlat wb) = Ok (name_cmp a b) /\ m_name_ord (NFlat wa) (NFlat wb) = Ok (name_cmp a b) /\ m_name_hash (NFlat wa) = Ok (name_hash_feed a) /\ m_composed_cmp (NFlat wa) (NFlat wb) = Ok (lex_cmp wa wb) /\ m_lc_composed_cmp (NFlat wa) (NFlat wb) = Ok (lex_cmp (wire_abs (canon a)) (wire_abs (canon b))).
+Proof. exact accepted_flat_ops. Qed.
+Print Assumptions C04_accepted_flat_ops.
 
 Theorem C04_parsed_denotes : forall m pos lim p, parse_ref m pos lim = Ok p -> lim <= mlen m -> wf_bytes m -> exists n, valid_abs n /\ pname_labels m p = Ok (n, true) /\ denotes (NParsed m p) (n ++ [[]]).
 Proof. exact parsed_denotes. Qed.
@@ -288,6 +300,18 @@ Print Assumptions C04_rd_partial_is_cmp.
 Theorem C04_rd_cmp_eq_iff : forall code row a b, rd_lookup rd_table code = Some row -> map fv_kind a = row_kinds row -> map fv_kind b = row_kinds row -> Forall fv_ok a -> Forall fv_ok b -> exists c, c04_rd_cmp code a b = Some c /\ c04_rd_partial code a b = Some c /\ (c = Eq <-> rd_eq (row_eq row) a b = true).
 Proof. exact rd_cmp_eq_iff. Qed.
 Print Assumptions C04_rd_cmp_eq_iff.
+
+Theorem C04_record_partial_is_cmp : forall code oa ca a ob cb b, c04_record_partial code oa ca a ob cb b = c04_record_cmp code oa ca a ob cb b.
+Proof. exact record_partial_is_cmp. Qed.
+Print Assumptions C04_record_partial_is_cmp.
+
+Theorem C04_record_cmp_eq_iff : forall code row oa ca a ob cb b, rd_lookup rd_table code = Some row -> map fv_kind a = row_kinds row -> map fv_kind b = row_kinds row -> Forall fv_ok a -> Forall fv_ok b -> exists c, c04_record_cmp code oa ca a ob cb b = Some c /\ (c = Eq <-> c04_record_eq code oa ca a ob cb b = true).
+Proof. exact record_cmp_eq_iff. Qed.
+Print Assumptions C04_record_cmp_eq_iff.
+
+Theorem C04_header_partial_is_cmp : forall a b, hdr_chain header_partial_fields a b = m_header_cmp a b.
+Proof. exact header_partial_is_cmp. Qed.
+Print Assumptions C04_header_partial_is_cmp.
 
 Theorem C04_nsec_canonical_bytewise : forall vs n1 t1 n2 t2, valid_abs n1 -> valid_abs n2 -> ~ nsec_self_compare vs t1 t2 -> nsec_canonical_cmp_gen vs n1 t1 n2 t2 = Ok (lex_cmp (nsec_enc n1 t1) (nsec_enc n2 t2)).
 Proof. exact nsec_canonical_bytewise. Qed.
